@@ -181,6 +181,20 @@ def parse_trace(lines):
     return recs, exited
 
 
+RE_SIGNAL = re.compile(r"^(\d+)\s+--- (SIG\w+) \{(.*)\} ---")
+
+
+def fatal_signals(lines):
+    """{tid: (signal, line, siginfo)} for the threads that received a signal the probe does not handle (it installs no handlers and
+    sends no signals: any SIGSEGV / SIGBUS / SIGILL / SIGABRT line is the thread that faulted, the process dies with it)"""
+    out = {}
+    for idx, l in enumerate(lines):
+        m = RE_SIGNAL.match(l)
+        if m and m.group(2) in ("SIGSEGV", "SIGBUS", "SIGILL", "SIGABRT", "SIGFPE", "SIGTRAP"):
+            out.setdefault(int(m.group(1)), (m.group(2), idx, m.group(3)[:80]))
+    return out
+
+
 def is_marker(r):
     return r["name"] == "pread64" and len(r["args"]) >= 4 and r["args"][0] == M64 - 1
 
@@ -266,7 +280,7 @@ def futex_word(inst):
     return inst.tsm[0] + 4 if inst.tsm else None
 
 
-def analyze_batch(recs, exited, lo, hi, main, specs, cfg, classes, textb, nlines, heap_before):
+def analyze_batch(recs, exited, lo, hi, main, specs, cfg, classes, textb, nlines, heap_before, faults=None):
     """recs[lo:hi] = records between the batch's 'b' and 'e' markers (hi = len if the batch never ended).
     Returns (instances, problems(list of (kind, why)), stats)"""
     seqc = [0]
@@ -487,6 +501,17 @@ def analyze_batch(recs, exited, lo, hi, main, specs, cfg, classes, textb, nlines
         inst.nbegin = nb
         if inst.tid is not None:
             inst.t_exited = exited.get(inst.tid)
+            if faults and inst.tid in faults:
+                sig, line, info = faults[inst.tid]
+                last = [t_ for _, t_ in inst.t_all][-4:]
+                marks = "".join(k_ for _, k_, pid_ in inst.dmarks if pid_ == inst.tid)
+                problems.append(("crash", "the thread of id %d (tid %d) was killed by %s {%s} (trace line %d)%s; its last observed operations: %s" % (
+                    inst.id, inst.tid, sig, info, line,
+                    ", in the panic handler entered from the destructor of its unread result" if "X" in marks else "", last or "none")))
+    if faults and main in faults and lo <= len(recs):
+        inside = [r for r in window if r["entry"] <= faults[main][1]]
+        if inside and (hi >= len(recs) or recs[hi - 1]["entry"] >= faults[main][1]):
+            problems.append(("crash", "the main thread was killed by %s {%s} during this batch (trace line %d)" % (faults[main][0], faults[main][2], faults[main][1])))
     # ---- events of T, CAS placement, K placement; H's wait events
     for inst in insts.values():
         sp = inst.spec
@@ -834,6 +859,7 @@ def process_run(run, batches, cfg, base0=0):
     if not recs:
         return [], classes, "no trace"
     main = recs[0]["pid"]
+    faults = fatal_signals(run["trace"])
     marks = {}
     for i, r in enumerate(recs):
         if r["pid"] == main and is_marker(r):
@@ -849,7 +875,7 @@ def process_run(run, batches, cfg, base0=0):
             continue
         lo, hi = m["b"], m.get("e", len(recs))
         insts, problems, stats, heap_live = analyze_batch(recs, exited, lo, hi, main, specs, cfg, classes, textb.get(bno),
-                                                          len(run["trace"]), heap_before)
+                                                          len(run["trace"]), heap_before, faults)
         tb = textb.get(bno)
         jd = judge_batch(bno, specs, insts, problems, stats, heap_before, heap_live, tb, classes, None, run["timed_out"])
         line, nev = model_line(cfg, insts, 0)
@@ -1053,8 +1079,8 @@ def account(ctx, items, exe, pid_kinds=None, inject=None):
     return nbad
 
 
-C05_KINDS = {"hang", "spawn-failure-not-error", "runs-once", "spawn", "join", "join-value", "join-visibility", "join-early", "layout", "value-drop"}
-C06_KINDS = {"double-free", "use-after-free", "stack-use-after-unmap", "stack", "stack-leak", "tid-not-reset", "heap-baseline", "thread-leak", "vm-baseline",
+C05_KINDS = {"crash", "hang", "spawn-failure-not-error", "runs-once", "spawn", "join", "join-value", "join-visibility", "join-early", "layout", "value-drop"}
+C06_KINDS = {"crash", "double-free", "use-after-free", "stack-use-after-unmap", "stack", "stack-leak", "tid-not-reset", "heap-baseline", "thread-leak", "vm-baseline",
              "free-before-exit", "value-drop"}
 
 
